@@ -4,6 +4,7 @@ Property theorems only; helper lemmas live in Proofs/Slice.lean.
 -/
 import TrimeshVerif.Proofs.Slice
 import TrimeshVerif.Proofs.SliceRat
+import TrimeshVerif.Proofs.SlicePieces
 namespace TV.C11
 open TV.Mat3 TV.Affine TV.Remesh TV.Slice
 
@@ -120,5 +121,31 @@ theorem C11_rat_section_none (tol : Rat) (htol : 0 ≤ tol) (n o : TV.Slice.V) (
          (sdistR n o t.1 < -tol ∧ sdistR n o t.2.1 < -tol ∧ sdistR n o t.2.2 < -tol)) :
     sectionTri tol n o t = none :=
   section_none_one_side tol n o t h htol
+
+/-- **slicing returns only the part on the positive side**: every corner of every piece `slice_faces_plane`
+    keeps of a triangle is at most `tol` below the plane -/
+theorem C11_rat_slice_positive (tol : Rat) (htol : 0 ≤ tol) (n o : TV.Slice.V) (t : TV.Slice.Tri) :
+    ∀ piece ∈ keptTris t (sliceTri tol n o t), ∀ x ∈ corners piece, -tol ≤ sdistR n o x :=
+  slice_kept_positive tol htol n o t
+
+/-- a triangle that is dropped has no corner strictly above the band -/
+theorem C11_rat_slice_dropped (tol : Rat) (htol : 0 ≤ tol) (n o : TV.Slice.V) (t : TV.Slice.Tri)
+    (h : sliceTri tol n o t = .dropped) : ∀ x ∈ corners t, sdistR n o x ≤ tol :=
+  slice_dropped_negative tol htol n o t h
+
+/-- **the two opposite slices partition the triangle** (general position): the area vectors of the pieces
+    kept for `n` and for `-n` add up to the triangle's, so the areas of the two slices add up to the area -/
+theorem C11_rat_slice_partition (tol : Rat) (htol : 0 ≤ tol) (n o : TV.Slice.V) (t : TV.Slice.Tri)
+    (hgen : ∀ x ∈ corners t, tol < sdistR n o x ∨ sdistR n o x < -tol) :
+    TV.Slice.addV (sumV ((keptTris t (sliceTri tol n o t)).map TV.Slice.areaVecR))
+         (sumV ((keptTris t (sliceTri tol (negV n) o t)).map TV.Slice.areaVecR)) = TV.Slice.areaVecR t :=
+  slice_partition tol htol n o t hgen
+
+/-- every kept piece lies in the triangle's plane with the triangle's winding and no more than its area -/
+theorem C11_rat_slice_oriented (tol : Rat) (htol : 0 ≤ tol) (n o : TV.Slice.V) (t : TV.Slice.Tri)
+    (hgen : ∀ x ∈ corners t, tol < sdistR n o x ∨ sdistR n o x < -tol) :
+    ∀ piece ∈ keptTris t (sliceTri tol n o t), ∃ k : Rat, 0 ≤ k ∧ k ≤ 1 ∧
+      TV.Slice.areaVecR piece = TV.Slice.smulV k (TV.Slice.areaVecR t) :=
+  slice_pieces_oriented tol htol n o t hgen
 
 end TV.C11
